@@ -732,7 +732,9 @@ var $assertType = (value, type, returnTuple) => {
     } else if (!isInterface) {
         ok = value.constructor === type;
     } else {
-        var valueTypeString = value.constructor.string;
+        // Keyed by the unique type id: distinct types may print the same (e.g. equally named
+        // types declared in different functions).
+        var valueTypeString = value.constructor.id;
         ok = type.implementedBy[valueTypeString];
         if (ok === undefined) {
             ok = true;
